@@ -160,7 +160,7 @@ int vh_prop(void)
 	vnaproperty_t *s;
 	LIB(s = vnaproperty_get_subtree(reg[r], "%s", d));
 	if (s == NULL && errno != 0) vh_out("fail %s", vh_errclass(errno));
-	else { vh_out("ok "); LIB(walk(s)); }
+	else { vh_out("ok "); OBS(walk(s)); }
     } else if (strcmp(op, "set_subtree") == 0 && d) {	/* then optionally set a value through the returned anchor */
 	vnaproperty_t **a;
 	LIB(a = vnaproperty_set_subtree(&reg[r], "%s", d));
@@ -188,7 +188,7 @@ int vh_prop(void)
 	else { vh_out("ok"); vh_out_hexbytes(q); LIB(free(q)); }
     } else if (strcmp(op, "digest") == 0) {
 	vh_out("ok ");
-	LIB(walk(reg[r]));
+	OBS(walk(reg[r]));
     } else if (strcmp(op, "export") == 0) {
 	char *buf = NULL;
 	size_t len = 0;
